@@ -901,3 +901,41 @@ Lemma log_predicates_lemma : forall c txs,
 Proof.
   intros c txs H. split; [apply log_ok_model_lemma; exact H|apply times_ok_model_lemma; exact H].
 Qed.
+
+(* ================================================================ NewMemory *)
+
+Lemma every_forall : forall a b, every a b = true -> forall x, In x b -> In x a.
+Proof.
+  intros a b H x Hx. unfold every in H. rewrite forallb_forall in H.
+  apply mem_In. apply H. exact Hx.
+Qed.
+
+Lemma parse_states_known : forall n order l,
+  Forall (fun s => s < n) (parse_states n order l).
+Proof.
+  intros n order l. unfold parse_states.
+  set (known := filter (fun s => s <? n) l).
+  assert (Forall (fun s => s < n) known) as Hk.
+  { apply Forall_forall. intros x Hx. apply filter_In in Hx. apply Nat.ltb_lt. apply Hx. }
+  destruct (has_dup known).
+  - apply Forall_forall. intros x Hx. apply filter_In in Hx. apply Nat.ltb_lt. apply Hx.
+  - destruct (perm_eqb order known) eqn:E; [|exact Hk].
+    unfold perm_eqb in E. apply andb_true_iff in E. destruct E as [E E2].
+    apply andb_true_iff in E. destruct E as [_ E1].
+    apply Forall_forall. intros x Hx.
+    eapply Forall_forall in Hk; [exact Hk|]. eapply every_forall; [exact E2|exact Hx].
+Qed.
+
+(* NewMemory never installs a tracked state the machine does not know, keeps
+   at least one, and MaxRecords >= 1 *)
+Lemma new_memory_wf_lemma : forall n order w c,
+  new_memory n order w = Some c ->
+  Forall (fun s => s < n) (c_tracked c) /\ c_tracked c <> [] /\ 1 <= c_max c.
+Proof.
+  intros n order w c H. unfold new_memory in H.
+  pose proof (parse_states_known n order (requested_tracked w)) as Hp.
+  destruct (parse_states n order (requested_tracked w)) as [|a r] eqn:E; [discriminate|].
+  inversion H; subst; clear H. cbn [c_tracked c_max].
+  split; [exact Hp|]. split; [discriminate|].
+  destruct (Z.leb_spec (w_max w) 0); lia.
+Qed.
